@@ -14,11 +14,11 @@ Lim == 2147483647
 Natives == {0, 1, 2, 7, 9999, 10000, 10001, 19999, 46340, 46341, 65536, 99999999, 100000000, 100000001, 123456789, 999999999, 1073741823}
 Signed == Natives \cup { -n : n \in Natives }
 \* multi-limb values: every limb pattern of length 3 over {0, 1, 9999} with a non-zero top limb, both signs, and two long ones
-Patterns == { <<x, y, z>> : x \in {0, 1, 9999}, y \in (IF Wide THEN {0, 1, 9999} ELSE {0, 9999}), z \in (IF Wide THEN {1, 9999} ELSE {9999}) }
-Bigs == { <<1, m>> : m \in Patterns } \cup { <<-1, m>> : m \in {<<9999, 9999, 9999>>, <<0, 0, 1>>, <<1, 0, 9999>>} }
-        \cup { <<1, <<9999, 9999, 9999, 9999, 9999>>>>, <<1, <<1, 0, 0, 0, 0, 1>>>>, BZero }
+Patterns == { <<x, y, z>> : x \in (IF Wide THEN {0, 1, 9999} ELSE {0, 9999}), y \in (IF Wide THEN {0, 1, 9999} ELSE {0, 9999}), z \in (IF Wide THEN {1, 9999} ELSE {9999}) }
+Bigs == { <<1, m>> : m \in Patterns } \cup { <<-1, m>> : m \in {<<9999, 9999, 9999>>, <<0, 0, 1>>} \cup (IF Wide THEN {<<1, 0, 9999>>} ELSE {}) }
+        \cup { <<1, <<9999, 9999, 9999, 9999, 9999>>>>, BZero } \cup (IF Wide THEN { <<1, <<1, 0, 0, 0, 0, 1>>>> } ELSE {})
 Small3 == IF Wide THEN {BFromInt(0), BFromInt(1), BFromInt(-1), BFromInt(9999), BFromInt(10000), <<1, <<9999, 9999>>>>, <<-1, <<0, 0, 0, 1>>>>}
-          ELSE {BFromInt(1), <<1, <<9999, 9999>>>>, <<-1, <<0, 0, 0, 1>>>>}
+          ELSE {<<1, <<9999, 9999>>>>, <<-1, <<0, 0, 0, 1>>>>}
 
 VARIABLES a, b, c, mode
 vars == <<a, b, c, mode>>
@@ -47,18 +47,19 @@ NativeAgrees == mode = "native" =>
                             /\ (~MulFitsN(a, b) => ~IsNative(P))
   /\ BNeg(BNeg(A)) = A /\ BAbs(A) = BFromInt(Abs(a))
 RingLaws == mode = "big" =>
+  LET ab == BMul(a, b)  ac == BMul(a, c)  bc == BMul(b, c)  apb == BAdd(a, b)  bpc == BAdd(b, c)  amb == BSub(a, b)  cab == BCmp(a, b) IN
   /\ BOk(a) /\ BOk(b) /\ BOk(c)
-  /\ BOk(BAdd(a, b)) /\ BOk(BMul(a, b)) /\ BOk(BSub(a, b))
-  /\ BAdd(a, b) = BAdd(b, a) /\ BMul(a, b) = BMul(b, a)
-  /\ BAdd(BAdd(a, b), c) = BAdd(a, BAdd(b, c)) /\ BMul(BMul(a, b), c) = BMul(a, BMul(b, c))
-  /\ BMul(a, BAdd(b, c)) = BAdd(BMul(a, b), BMul(a, c))
-  /\ BSub(BAdd(a, b), b) = a /\ BAdd(BSub(a, b), b) = a /\ BSub(a, a) = BZero
+  /\ BOk(apb) /\ BOk(ab) /\ BOk(amb)
+  /\ apb = BAdd(b, a) /\ ab = BMul(b, a)
+  /\ BAdd(apb, c) = BAdd(a, bpc) /\ BMul(ab, c) = BMul(a, bc)
+  /\ BMul(a, bpc) = BAdd(ab, ac)
+  /\ BSub(apb, b) = a /\ BAdd(amb, b) = a /\ BSub(a, a) = BZero
   /\ BMul(a, BOne) = a /\ BAdd(a, BZero) = a /\ BMul(a, BZero) = BZero
   /\ BMul(a, BFromInt(10000)) = BMk(a[1], IF Len(a[2]) = 0 THEN <<>> ELSE <<0>> \o a[2])           \* a shift by one limb
-  /\ BCmp(a, b) = -BCmp(b, a) /\ (BCmp(a, b) = 0 <=> a = b)
-  /\ BCmp(BAdd(a, c), BAdd(b, c)) = BCmp(a, b)                                                    \* order and +
-  /\ (c[1] > 0 => BCmp(BMul(a, c), BMul(b, c)) = BCmp(a, b)) /\ (c[1] < 0 => BCmp(BMul(a, c), BMul(b, c)) = -BCmp(a, b))
-  /\ BCmp(a, b) = BSub(a, b)[1]
+  /\ cab = -BCmp(b, a) /\ (cab = 0 <=> a = b)
+  /\ BCmp(BAdd(a, c), bpc) = cab                                                                  \* order and +
+  /\ (c[1] > 0 => BCmp(ac, bc) = cab) /\ (c[1] < 0 => BCmp(ac, bc) = -cab)
+  /\ cab = amb[1]
 RatLaws == mode = "big" /\ b[1] # 0 =>
   LET x == QInt(a)  y == QInt(b)  q == QDiv(x, y) IN
   /\ q[2][1] = 1                                                                                   \* denominators stay positive
